@@ -6,6 +6,7 @@ mod c11;
 mod c12;
 mod c13;
 mod c14;
+mod c15;
 mod c16;
 mod c17;
 mod c19;
@@ -76,6 +77,7 @@ fn main() {
                 "C10" => c10::gen(&mut rng, thorough, &mut out),
                 "C11" => c11::gen(&mut rng, thorough, &mut out),
                 "C12" => c12::gen(&mut rng, thorough, &mut out),
+                "C15" => c15::gen(&mut rng, thorough, &mut out),
                 "C16" => c16::gen(&mut rng, thorough, &mut out),
                 "C17" => c17::gen(&mut rng, thorough, &mut out),
                 "C19" => c19::gen(&mut rng, thorough, &mut out),
